@@ -15,14 +15,19 @@ EXPLANATION = (
     "type [OWS ';' OWS 'q=' qvalue] joined by OWS ',' OWS, with the media types enumerated over supported, synonym and "
     "unsupported types (pairwise distinct in one header), OWS a symbolic string in [ \\t]*, and the qvalue a symbolic string "
     "constrained to a registry of RFC 7231 numerals on which float() forks. The result must be the canonical form of a "
-    "supported type of maximal q (any of them on ties) and the default when none is supported. SPARQL parsing / evaluation, "
-    "VALUES placement, GET vs POST and the two web frameworks are inside rdflib / Flask / FastAPI and not applicable.")
+    "supported type of maximal q (any of them on ties) and the default when none is supported. "
+    "(c) VALUES placement: rdflib translates a VALUES block written after WHERE into Join(p1 = pattern, p2 = ToMultiSet); the service "
+    "depends on curies' own _optimize_node flipping every such Join so that the values are bound before triples() runs. "
+    "_optimize_node runs on a two-level algebra tree whose node names are symbolic strings: a node is flipped exactly when it "
+    "is a Join with p2 = ToMultiSet and p1 not ToMultiSet, for every name of p1 (BGP, Filter, Extend, ...), nothing else moves. "
+    "SPARQL parsing / evaluation themselves, GET vs POST and the two web frameworks are inside rdflib / Flask / FastAPI and "
+    "not applicable.")
 BOUNDS = dict(header_parts="<= 2 with symbolic optional whitespace (1 with all 10 media types, 2 with one representative per class); 3 parts over {type, its synonym, other type} without whitespace",
               qvalues="registry 0.1 0.5 0.50 0.25 0.9 1 1.0 (every weak order on <= 2 parts, equal values with different spellings)",
               ows="symbolic string in [ \\t]*, unbounded", triples_converter="<= 2 records, <= 2 URI synonyms", strings="unbounded, full z3 alphabet")
-OUTSIDE = ["SPARQL parsing and evaluation, _optimize_node / VALUES placement (rdflib)", "GET vs POST, Flask vs FastAPI plumbing, result serialisation",
+OUTSIDE = ["SPARQL parsing and evaluation (rdflib): that rdflib's translation of a trailing VALUES block is Join(pattern, ToMultiSet) is taken from rdflib, not checked", "algebra trees deeper than two levels (the recursion of _optimize_node is exercised one level deep)", "GET vs POST, Flask vs FastAPI plumbing, result serialisation",
            "arbitrary q numerals outside the registry", "headers of 3 or more parts", "repeated media types in one header", "q=0 (not acceptable) semantics"]
-ASSUMPTIONS = ["rdflib stub: URIRef(s) is the string s, Graph.__init__ does nothing, OWL.sameAs is its IRI; _is_valid_uri is rdflib's own function",
+ASSUMPTIONS = ["CompValue stub: a named mapping with attribute access, update() and values() (rdflib's class in concrete mode)", "rdflib stub: URIRef(s) is the string s, Graph.__init__ does nothing, OWL.sameAs is its IRI; _is_valid_uri is rdflib's own function",
                "float() on a symbolic string forks over the numeral registry (core.sym_float)", "pytrie contract stub", "pydantic BaseModel stub"]
 
 SUPPORTED = ["application/sparql-results+json", "application/sparql-results+xml", "application/sparql-results+csv"]
@@ -51,6 +56,7 @@ def jobs(tier):
     J("triples", "triples:[[0,1]]", dict(shape=[[0, 1]], custom=False), 600, 5, expect=["subject-bound", "object-bound", "nothing"])
     J("triples", "triples:[[0,0]]:concrete-custom-predicate", dict(shape=[[0, 0]], custom="http://www.w3.org/2004/02/skos/core#exactMatch"), 600, 5,
       expect=["subject-bound", "object-bound", "nothing"])
+    J("optimize", "optimize:join-of-join", dict(), 600, None, expect=["done"])
     J("header", "header:k=2:all-types", dict(k=2, types="all", ows=True), 3000, 9, ("thorough",), ["supported", "default"])
     J("triples", "triples:[[0,2],[0,0]]", dict(shape=[[0, 2], [0, 0]], custom=False), 2400, 8, ("thorough",), ["subject-bound", "object-bound", "nothing"])
     J("triples", "triples:[[1,1]]:custom-predicate", dict(shape=[[1, 1]], custom=True), 1800, 6, ("thorough",), ["subject-bound", "object-bound", "nothing"])
@@ -163,4 +169,29 @@ def build(job):
         eng.expect(len(others) <= max(1 + len(r.usyn) for r in recs), "more URIs returned than the record has URI prefixes")
         return "subject-bound" if mode == "subject" else "object-bound"
 
-    return dict(header=header, triples=triples)[fn]
+    def optimize(eng):
+        """_optimize_node on an algebra tree  root(p1 = inner(p1 = leaf, p2 = leaf), p2 = leaf)  whose five node names are
+        arbitrary strings: a node is flipped exactly when it is a Join whose second operand is a VALUES block (ToMultiSet)
+        and whose first operand is not - whatever else the first operand is (BGP, Filter, Extend, LeftJoin, Union, ...);
+        nothing else moves."""
+        rc = eng.mods.rdfc
+        CV = rc.CompValue
+        nr, n1, n2, n11, n12 = [eng.var(x) for x in ("name_root", "name_p1", "name_p2", "name_p1_p1", "name_p1_p2")]
+        J_, TMS = z3.StringVal("Join"), z3.StringVal("ToMultiSet")
+        eng.assume(And([_s(x) != J_ for x in (n2, n11, n12)]))      # a Join always has two operands; the leaves have none
+        l11, l12, l2 = CV(n11), CV(n12), CV(n2)
+        inner = CV(n1, p1=l11, p2=l12)
+        root = CV(nr, p1=inner, p2=l2)
+        out = rc._optimize_node(root)
+        eng.expect(out is root, "_optimize_node does not return the node it was given")
+        for node, name, (a, na), (b, nb) in ((root, nr, (inner, n1), (l2, n2)), (inner, n1, (l11, n11), (l12, n12))):
+            must_flip = And(_s(name) == J_, _s(nb) == TMS, _s(na) != TMS)
+            if node.p1 is b and node.p2 is a:
+                eng.check_holds(must_flip, "_optimize_node swapped the operands of a node that is not a Join with a trailing VALUES block")
+            elif node.p1 is a and node.p2 is b:
+                eng.check_holds(z3.Not(must_flip), "a Join whose second operand is a VALUES block was not flipped (the values are not bound before triples() is called)")
+            else:
+                eng.fail("_optimize_node lost or duplicated an operand")
+        return "done"
+
+    return dict(header=header, triples=triples, optimize=optimize)[fn]
